@@ -226,11 +226,104 @@ theorem C05_N3_set_record :
     okIs (tryC extRT (.pane infoN3 [rowInt_R, rowInt_R]) (.dict [(.str "a", .int 1), (.str "b", .int 0)]))
       (.obj "P" [("a", .int 1), ("b", .int 0)] ["a", "b"]) = true := by decide +kernel
 
+/-! ## `ValueOrList[T]` (`Conv.vol`): outside `RTSafe`; the concrete round trip and why a general one needs a side condition -/
+
+/-- **`ValueOrList[int]` round trip, concretely** — for every `Ext` and every untyped serialiser; `c` is the `int` row of
+the extracted `_BASIC_CONVERTERS` table.  The single value `5` and the list `[1, 2]` are parsed, wrapped, serialised by the
+element serialiser (the fix of `ValueOrListConverter.into_data`) and parse back to the same `ValueOrList`.
+
+And the NEGATIVE example that shows why the general statement needs a side condition: for `T = Any` the `ValueOrList`
+built from the list `[1]` (`ValueOrList.from_list([1])`, `x = .wrap "ValueOrList:list" (.list [.int 1])`) serialises to
+`[1]`, which parses back as the SINGLE value `[1]` (`.wrap "ValueOrList:val" (.list [.int 1])`): the element type accepts
+the list form, and the single-value reading wins (`C11_vol_first`).  Same family as N1 (union order). -/
+theorem C05_vol_roundtrip (E : Ext) (dyn : Val → Except Exc Val) (hd : dyn (.int 1) = .ok (.int 1)) :
+    Facts.basicTable.lookup "int" = some rowInt_R ∧ RTSafe (.vol rowInt_R) = false ∧
+    -- one value
+    tryC E (.vol rowInt_R) (.int 5) = .ok (.wrap "ValueOrList:val" (.int 5)) ∧
+    intoC E dyn (.vol rowInt_R) (.wrap "ValueOrList:val" (.int 5)) = .ok (.int 5) ∧
+    -- a list
+    tryC E (.vol rowInt_R) (.list [.int 1, .int 2]) = .ok (.wrap "ValueOrList:list" (.list [.int 1, .int 2])) ∧
+    intoC E dyn (.vol rowInt_R) (.wrap "ValueOrList:list" (.list [.int 1, .int 2])) = .ok (.list [.int 1, .int 2]) ∧
+    -- the negative example, `T = Any`
+    intoC E dyn (.vol .any) (.wrap "ValueOrList:list" (.list [.int 1])) = .ok (.list [.int 1]) ∧
+    tryC E (.vol .any) (.list [.int 1]) = .ok (.wrap "ValueOrList:val" (.list [.int 1])) ∧
+    (Val.wrap "ValueOrList:val" (.list [.int 1])).eqv (.wrap "ValueOrList:list" (.list [.int 1])) = false := by
+  refine ⟨by rfl, by decide, by rfl, by rfl, by rfl, by rfl, ?_, by rfl, by decide +kernel⟩
+  simp only [intoC, exMapM, hd]
+  rfl
+
+/-- **N4.**  The side condition is needed even for values that DO come from parsing (`HasType`): with
+`T = list[str] | Fraction`, `[5, 6]` is rejected by `T` as a whole and read as the list of the two `Fraction`s; they serialise
+to `["5", "6"]`, which `T` accepts as ONE value (a `list[str]`): the re-parsed value is the single-value reading.
+A general round-trip theorem for `.vol c` must therefore assume, for the list reading, that the element converter rejects
+the serialised list (as `RTOkU` does for the earlier members of a union). -/
+theorem C05_N4_vol_list_reading :
+    okIs (tryC extRT (.vol (.union [.seq "list" rowStr_R, rowFraction])) (.list [.int 5, .int 6]))
+      (.wrap "ValueOrList:list" (.list [.opaque "Fraction" "5", .opaque "Fraction" "6"])) = true ∧
+    exOkIs (intoC extRT dynEx (.vol (.union [.seq "list" rowStr_R, rowFraction]))
+      (.wrap "ValueOrList:list" (.list [.opaque "Fraction" "5", .opaque "Fraction" "6"])))
+      (.list [.str "5", .str "6"]) = true ∧
+    okIs (tryC extRT (.vol (.union [.seq "list" rowStr_R, rowFraction])) (.list [.str "5", .str "6"]))
+      (.wrap "ValueOrList:val" (.list [.str "5", .str "6"])) = true ∧
+    (Val.wrap "ValueOrList:val" (.list [.str "5", .str "6"])).eqv
+      (.wrap "ValueOrList:list" (.list [.opaque "Fraction" "5", .opaque "Fraction" "6"])) = false := by decide +kernel
+
+/-- **C05 for `ValueOrList[T]`, general form** (`.vol` is outside `RTSafe`; this is the general statement WITH the explicit
+per-value side condition `RTOkVol`): for an element converter `T` of the fragment, a typed value of `ValueOrList[T]`
+serialises to constructible interchange data that parses back to the very same `ValueOrList` — provided, for the list
+reading, that `T` rejects the serialised list (`C05_vol_roundtrip` / `C05_N4_vol_list_reading` show that this cannot be
+dropped), and the per-value condition of `T` holds for the value / every item. -/
+theorem C05_vol_roundtrip_general (hS : ScalarRT E) (hD : DynId dyn N) (hc : RTSafe c = true) (hx : x.depth < N)
+    (ht : HasType E (.vol c) x) (hok : RTOkVol E dyn c x) :
+    ∃ d, intoC E dyn (.vol c) x = .ok d ∧ d.isData = true ∧ tryC E (.vol c) d = .ok x :=
+  rt_vol (RTSafe.good hS hD c hc) x hx ht hok
+
+/-- the single-value reading needs no condition of its own: a typed `ValueOrList(y, True)` round-trips whenever `y` does -/
+theorem C05_vol_roundtrip_val (hS : ScalarRT E) (hD : DynId dyn N) (hc : RTSafe c = true) {y : Val}
+    (hx : y.depth + 1 < N) (ht : HasType E (.vol c) (.wrap "ValueOrList:val" y)) (hok : RTOk E dyn c y) :
+    ∃ d, intoC E dyn c y = .ok d ∧ d.isData = true ∧ tryC E (.vol c) d = .ok (.wrap "ValueOrList:val" y) := by
+  obtain ⟨d, h1, h2, h3⟩ := C05_vol_roundtrip_general hS hD hc (x := .wrap "ValueOrList:val" y)
+    (by simpa only [Val.depth] using hx) ht (by simpa only [RTOkVol] using hok)
+  exact ⟨d, by rw [← intoC_vol_val]; exact h1, h2, h3⟩
+
+/-- the list reading, for an element type that never accepts a real sequence (scalars, `None`, mappings, dataclasses in
+struct layout … : `hrej`): no per-value condition is left but the items' own -/
+theorem C05_vol_roundtrip_list (hS : ScalarRT E) (hD : DynId dyn N) (hc : RTSafe c = true) {ys : List Val}
+    (hrej : ∀ d : Val, d.isSeq = true → tryC E c d = .interrupt)
+    (hx : (Val.wrap "ValueOrList:list" (.list ys)).depth < N)
+    (ht : HasType E (.vol c) (.wrap "ValueOrList:list" (.list ys))) (hok : ∀ y ∈ ys, RTOk E dyn c y) :
+    ∃ ds, intoC E dyn (.vol c) (.wrap "ValueOrList:list" (.list ys)) = .ok (.list ds) ∧ (Val.list ds).isData = true ∧
+      tryC E (.vol c) (.list ds) = .ok (.wrap "ValueOrList:list" (.list ys)) := by
+  have hok' : RTOkVol E dyn c (.wrap "ValueOrList:list" (.list ys)) := by
+    simp only [RTOkVol]
+    refine ⟨hok, fun d hd => ?_⟩
+    rw [intoC_vol_list] at hd
+    cases hm : exMapM (intoC E dyn c) ys with
+    | error e => rw [hm] at hd; cases hd
+    | ok ds => rw [hm] at hd; cases hd; exact hrej _ rfl
+  obtain ⟨d, h1, h2, h3⟩ := C05_vol_roundtrip_general hS hD hc hx ht hok'
+  have h1' := h1
+  rw [intoC_vol_list] at h1'
+  cases hm : exMapM (intoC E dyn c) ys with
+  | error e => rw [hm] at h1'; cases h1'
+  | ok ds =>
+    rw [hm] at h1'
+    cases h1'
+    exact ⟨ds, h1, h2, h3⟩
+
 /-! ## Non-vacuity -/
 
 section Examples
 
 private theorem dynEx_id : DynId dynEx 8 := intoDynF_dynId extRT extRT_ok.noElemHook [] [] 8
+
+/-- `ValueOrList[int]` on `[1, 2]`: the general theorem applies (an `int` converter never accepts a sequence) -/
+example : ∃ ds, intoC extRT dynEx (.vol rowInt_R) (.wrap "ValueOrList:list" (.list [.int 1, .int 2])) = .ok (.list ds) ∧
+    (Val.list ds).isData = true ∧
+    tryC extRT (.vol rowInt_R) (.list ds) = .ok (.wrap "ValueOrList:list" (.list [.int 1, .int 2])) :=
+  C05_vol_roundtrip_list extRT_ok dynEx_id (by decide +kernel)
+    (fun d hd => by cases d <;> first | rfl | cases hd) (by decide +kernel)
+    ⟨.list [.int 1, .int 2], by decide +kernel, okIs_eq (by decide +kernel)⟩ (fun y _ => RTOk_plain rowInt_R rfl y)
 
 /-- `list[tuple[int, float]]` -/
 def exLT : Conv := .seq "list" (.tuple [rowInt_R, rowFloat])
@@ -424,6 +517,11 @@ end Examples
 #print axioms C05_N1_union_order
 #print axioms C05_N2_unhashable_key
 #print axioms C05_N3_set_record
+#print axioms C05_vol_roundtrip
+#print axioms C05_N4_vol_list_reading
+#print axioms C05_vol_roundtrip_general
+#print axioms C05_vol_roundtrip_val
+#print axioms C05_vol_roundtrip_list
 #print axioms extRT_ok
 
 /-- **the guards hold on the current source.**  A member of a union that refuses a value must do so by a parse failure
